@@ -187,10 +187,28 @@ var runStartedNs atomic.Int64
 
 func startWatchdog() {
 	go func() {
+		// "Not moving" is judged by the scheduler's step counter, not by the age of the run: on a
+		// loaded machine a long run of the race build (a thousand certificates) takes more than a
+		// minute and is fine as long as it keeps taking steps. (Thorough run 9 lost a C15 worker to
+		// the earlier age-only rule.) Worlds without a scheduler take no steps: for them the age of
+		// the run is all there is.
+		lastProgress, lastChange := zzsim.Progress.Load(), time.Now()
 		for {
 			time.Sleep(time.Second)
-			if st := runStartedNs.Load(); st != 0 && time.Now().UnixNano()-st > int64(60*time.Second) {
-				fmt.Fprintln(os.Stderr, "fatal error: zzharness watchdog: the run has not ended after 60 s of real time (a task neither blocks nor yields)")
+			st := runStartedNs.Load()
+			if st == 0 {
+				lastChange = time.Now()
+				continue
+			}
+			if p := zzsim.Progress.Load(); p != lastProgress {
+				lastProgress, lastChange = p, time.Now()
+			}
+			since := lastChange
+			if started := time.Unix(0, st); started.After(since) {
+				since = started
+			}
+			if time.Since(since) > 60*time.Second {
+				fmt.Fprintln(os.Stderr, "fatal error: zzharness watchdog: the run has taken no scheduling step for 60 s of real time (a task neither blocks nor yields)")
 				os.Exit(3)
 			}
 		}
